@@ -219,7 +219,9 @@ def okC07batch (ctx : Ctx) (acts : List (Act α)) : Bool :=
               else if ctx.rule == "mpls" then r.x2
               else A.sum ((r.cs.filter (fun e => e.2.1 == "e")).map (fun e => A.sub e.2.2.1 r.quota))
             let tot := A.add (A.sum (batch.map (·.2.2.1))) surplus
-            others.all (fun e => A.lt tot e.2.2.1)
+            -- the stored values are compared exactly: Guarded's own `<` is approximate (values within half a unit of the
+            -- declared precision are "equal"), the property speaks of the tallies
+            others.all (fun e => A.ltRaw tot e.2.2.1)
             && ((others.length : Int) ≥ (ctx.seats : Int) - (electedCount r : Int))
         else true
       ok && go cur (if lastOfBatch then none else ref') rest
